@@ -18,7 +18,7 @@ Trace == ndJsonDeserialize(TraceFile)
 Range(s) == { s[i] : i \in DOMAIN s }
 
 Owners == { Trace[i].args.owner : i \in { j \in DOMAIN Trace : Trace[j].ev = "C12Real" } } \ {""}
-Kinds  == {"k1", "k2"}
+Kinds  == {"k1", "k2", "k3", "k4"}    \* k3 / k4: one kind served in two API versions (two resources on the server)
 Rollback == "full"
 MaxFail == 0
 
